@@ -55,10 +55,10 @@ fn main() {
                 eprintln!("HARNESS-ERROR: self-test failed");
                 std::process::exit(2);
             }
-            match args[2].as_str() {
-                "C03" => props::c03::check(tier, seed),
-                other => {
-                    eprintln!("unknown or not-applicable property {}", other);
+            match props::check(args[2].as_str(), tier, seed) {
+                Some(c) => c,
+                None => {
+                    eprintln!("unknown or not-applicable property {}", args[2]);
                     2
                 }
             }
@@ -72,9 +72,9 @@ fn main() {
                 }
             };
             let prop = doc.get("property").and_then(|p| p.as_str()).unwrap_or("");
-            let r = match prop {
-                "C03" => props::c03::replay(&doc),
-                _ => {
+            let r = match props::replay(prop, &doc) {
+                Some(r) => r,
+                None => {
                     eprintln!("replay: unknown property {:?}", prop);
                     std::process::exit(2)
                 }
